@@ -4,7 +4,7 @@
 #  (a) it applies to the current /repo HEAD, builds, and the existing suites pass;
 #  (b) its demonstration fails with the change and (c) passes without it.
 id=$1; mut=$2
-wt=/tmp/wt/$id; sd=/tmp/seed/$id/$mut
+wt=${WTROOT:-/tmp/wt}/$id; sd=${SEEDROOT:-/tmp/seed}/$id/$mut
 head=$(git -C /repo rev-parse HEAD)
 git -C $wt checkout -q --detach $head 2>/dev/null; git -C $wt checkout -q -- . ; git -C $wt clean -fdq
 patch=$sd/patch.diff; [ -f $sd/patch.rebased.diff ] && patch=$sd/patch.rebased.diff
@@ -14,10 +14,10 @@ res="$id/$mut patch=$(basename $patch)"
 if ! git -C $wt apply $patch 2>/dev/null; then echo "$res APPLY-FAILED"; exit 1; fi
 suite=ok
 for m in duct hseq optics pure trait pipe; do
-  (cd $wt/$m && go build ./... >/dev/null 2>&1 && go test -vet=off -count=1 -skip 'TestThrottling|TestFMap/Cancel' ./... >/tmp/seed/$id.$mut.$m.log 2>&1) || suite="FAIL($m)"
+  (cd $wt/$m && go build ./... >/dev/null 2>&1 && go test -vet=off -count=1 -skip 'TestThrottling|TestFMap/Cancel' ./... >${SEEDROOT:-/tmp/seed}/$id.$mut.$m.log 2>&1) || suite="FAIL($m)"
 done
-(cd $wt && sh -c "$cmd" >/tmp/seed/$id.$mut.demo_with.log 2>&1) && with=pass || with=fail
+(cd $wt && sh -c "$cmd" >${SEEDROOT:-/tmp/seed}/$id.$mut.demo_with.log 2>&1) && with=pass || with=fail
 git -C $wt checkout -q -- . ; 
-(cd $wt && sh -c "$cmd" >/tmp/seed/$id.$mut.demo_without.log 2>&1) && without=pass || without=fail
+(cd $wt && sh -c "$cmd" >${SEEDROOT:-/tmp/seed}/$id.$mut.demo_without.log 2>&1) && without=pass || without=fail
 git -C $wt checkout -q -- . ; git -C $wt clean -fdq
 echo "$res suite=$suite demo_with_patch=$with demo_without_patch=$without"
